@@ -163,9 +163,25 @@ CLAIMED = {
   'note': 'Trusted: Verus/Z3; A-C (the C library computes the IEEE operation of each entry point: uninterpreted), A-IEEE, R9/R20/R21 rewrites. The arithmetic itself lives in C and is only covered by the bounded differential stand-in.',
  },
 }
+CLAIMED.update({
+ 'C07': {
+  'text': 'Partial. Verus proves on the real body of scientific_to_plain (feel-number/src/number.rs), for EVERY text the decimal library can write for a finite decimal128 value '
+          '(to-scientific-string form: any sign, 1..34 coefficient digits, any exponent -6176..6111): the result is plain decimal text - optional minus sign, digits, optionally a point and digits, '
+          'never an exponent, no superfluous leading zeros (a JSON number) - whose digits denote exactly sign x coefficient x 10^exponent (value equation over the digit sequences, with the '
+          'concatenation / leading-zero / trailing-zero lemmas proved by induction); no unwrap, subtraction or index in it can fail; the recursion on the sign terminates. '
+          'Display::fmt and Jsonify::jsonify of FeelNumber hand exactly that text on; FromStr accepts a text iff the library reads a finite value from it and stores that value. '
+          'The C library side (what decQuadToString writes, what decQuadFromString reads) is assumed in the contract and looked at only by BOUNDED numbers-as-plain-text-differential, '
+          'which also covers FEEL literals and typed input texts.',
+  'design_ref': 'DESIGN.md section 5 (C07)',
+  'note': 'Trusted: Verus/Z3; A-C (decQuadToString writes the IEEE 754-2008 to-scientific-string form; decQuadFromString / decQuadIsFinite uninterpreted); A-std (R24: the str APIs strip_prefix / contains / split / '
+          'usize::from_str / len / chars().all / repeat-collect / format! / to_string mean what core documents, as stubs over the character sequence). Not decided: read-back and literal values (C library), '
+          'the lexer arms for numeric tokens, build_numeric.',
+  'technique': 'contract-based deductive verification: Verus requires/ensures/decreases on scientific_to_plain, Display::fmt, jsonify, from_str extracted mechanically from /repo with the str APIs replaced by specified stubs; '
+               'bounded differential stand-in (labelled bounded) for the C library side',
+ },
+})
 NOT_APPLICABLE = {
  'C04': 'the property is about dyn Fn closures stored in RwLock<HashMap> registries calling one another along the requirement graph; no first-order function carries it, Verus has no support for dyn Fn fields / std RwLock guards, Kani cannot bound the graph (DESIGN.md section 6)',
 
- 'C07': 'deciding code is str/format!/C decNumber string conversion (scientific_to_plain, decQuadToString); Verus has no specs for these str APIs and Kani/CBMC did not finish a 3-character instance in 15 min (DESIGN.md section 6)',
  'C20': 'a schedule property: Kani has no thread support and Verus would need the code rewritten onto its own permission/atomic types; Send+Sync is checked by rustc, not by this family (DESIGN.md section 6)',
 }
